@@ -67,9 +67,9 @@ pub fn parse_direct(input: &str) -> ParseResult<Vec<AST>> {
     }
 }
 
-/// Verification hook (guard: `--cfg mamba_verif`): re-exports the otherwise private lexer so that the
+/// Verification hook (guard: cargo feature `mamba_verif`, off by default): re-exports the otherwise private lexer so that the
 /// replay binary of the verification framework can run counterexamples on the real code.
-#[cfg(mamba_verif)]
+#[cfg(feature = "mamba_verif")]
 pub mod verif_hooks {
     pub use crate::parse::lex::result::LexErr;
     pub use crate::parse::lex::token::{Lex, Token};
